@@ -349,10 +349,25 @@ func (F *bfn) defFacts(z *zone, site ssa.Instruction) {
 					}
 					z.add(r.a, s.a, s.k-k-r.k) // r <= len - k
 					z.add("0", r.a, 1+r.k)     // r >= -1
-				case name == "strings.Split" || name == "bytes.Split":
+				case name == "strings.Split" || name == "bytes.Split" || name == "strings.SplitN" || name == "bytes.SplitN":
+					nonEmptySep := false
 					if sep, ok := constStr(F.rep(x.Call.Args[1])); ok && sep != "" {
+						nonEmptySep = true
+					} else if _, ok := F.c.sepByte(x.Call.Args[1]); ok {
+						nonEmptySep = true
+					}
+					if nonEmptySep {
 						l := F.lenLin(x)
-						z.add("0", l.a, l.k-1)
+						if strings.HasSuffix(name, "N") {
+							if n, ok := constInt(x.Call.Args[2]); ok && n != 0 {
+								z.add("0", l.a, l.k-1) // len >= 1
+								if n > 0 {
+									z.add(l.a, "0", n-l.k) // len <= n
+								}
+							}
+						} else {
+							z.add("0", l.a, l.k-1)
+						}
 					}
 				case name == "encoding/hex.EncodedLen":
 					r := F.linear(x)
@@ -363,6 +378,17 @@ func (F *bfn) defFacts(z *zone, site ssa.Instruction) {
 				me := F.lenLin(x)
 				z.add(me.a, l.a, l.k-me.k)
 				z.add(l.a, me.a, me.k-l.k)
+				// make([]T, p+q) with q >= 0: the length is at least p (and symmetrically)
+				if bo, ok := F.rep(x.Len).(*ssa.BinOp); ok && bo.Op == token.ADD {
+					for _, pq := range [][2]ssa.Value{{bo.X, bo.Y}, {bo.Y, bo.X}} {
+						if F.structNonNeg(pq[1], 0) {
+							pl := F.linear(pq[0])
+							if !pl.neg && !me.neg {
+								z.add(pl.a, me.a, me.k-pl.k) // p <= len
+							}
+						}
+					}
+				}
 			case *ssa.Slice:
 				me := F.lenLin(x)
 				src := F.lenLin(x.X)
@@ -849,6 +875,35 @@ type boundsOb struct {
 	OK    bool
 	Why   string
 	Notes []string
+	// SharedInt: the index is computed from an integer variable shared between a
+	// closure and its enclosing function (a length cached outside the closure):
+	// relating it to the slice's length needs inter-procedural memory reasoning
+	// this engine does not do
+	SharedInt bool
+	// Fields: names of the struct fields the checked quantity is computed from
+	// (lets an exception name the one quantity it is about)
+	Fields []string
+}
+
+// fieldsIn lists the struct fields loaded while computing v (shallow).
+func fieldsIn(v ssa.Value, depth int) []string {
+	if v == nil || depth > 5 {
+		return nil
+	}
+	switch x := v.(type) {
+	case *ssa.UnOp:
+		if fa, ok := x.X.(*ssa.FieldAddr); ok {
+			return []string{fieldOfAddr(fa).Var.Name()}
+		}
+		return fieldsIn(x.X, depth+1)
+	case *ssa.BinOp:
+		return append(fieldsIn(x.X, depth+1), fieldsIn(x.Y, depth+1)...)
+	case *ssa.Convert:
+		return fieldsIn(x.X, depth+1)
+	case *ssa.Field:
+		return []string{fieldOfVal(x).Var.Name()}
+	}
+	return nil
 }
 
 func (c *Ctx) boundsObligations(keep func(f *ssa.Function) bool) []*boundsOb {
@@ -878,6 +933,29 @@ func (c *Ctx) boundsObligations(keep func(f *ssa.Function) bool) []*boundsOb {
 						continue
 					}
 					X, idx, kind = x.X, x.Index, "index"
+				case *ssa.Call:
+					// library preconditions that panic when violated
+					q := calleeQ(&x.Call)
+					if q == "strings.Repeat" || q == "bytes.Repeat" {
+						if _, isConst := constInt(x.Call.Args[1]); isConst {
+							continue
+						}
+						F.notes = nil
+						z := newZone()
+						F.defFacts(z, in)
+						F.pathFacts(z, b)
+						cnt := F.linear(x.Call.Args[1])
+						F.floatFacts(z, x.Call.Args[1], b)
+						ob := &boundsOb{Fn: f, In: in, Kind: "repeat-count", OK: true, Fields: fieldsIn(x.Call.Args[1], 0)}
+						if !z.proveLE(zLin{a: "0"}, cnt) {
+							ob.OK = false
+							ob.Why = " count>=0 not established (strings.Repeat panics on a negative count);"
+						}
+						ob.Notes = append(ob.Notes, F.notes...)
+						ob.Expr = exprText(in)
+						out = append(out, ob)
+					}
+					continue
 				default:
 					continue
 				}
@@ -907,6 +985,12 @@ func (c *Ctx) boundsObligations(keep func(f *ssa.Function) bool) []*boundsOb {
 						ob.OK = false
 						ob.Why += " index<len not established;"
 					}
+					// s := make([]T, p+q); s[p+j] with 0 <= j < q
+					if !ob.OK && F.sumIndexProof(z, idx, X) {
+						ob.OK = true
+						ob.Why = ""
+						F.notes = append(F.notes, "index p+j into make(…, p+q): 0 <= j < q, p >= 0")
+					}
 				} else {
 					l := zero
 					if lo != nil {
@@ -930,6 +1014,9 @@ func (c *Ctx) boundsObligations(keep func(f *ssa.Function) bool) []*boundsOb {
 						ob.OK = false
 						ob.Why += " high<=len not established;"
 					}
+				}
+				if !ob.OK && idx != nil && F.c.usesSharedInt(idx, b, 0) {
+					ob.SharedInt = true
 				}
 				ob.Notes = append(ob.Notes, F.notes...)
 				ob.Expr = exprText(in)
@@ -1056,6 +1143,20 @@ func (c *Ctx) checkBounds(rule string, keep func(f *ssa.Function) bool, exceptio
 			c.exception(rule, key, posOf(ob.In), why)
 			continue
 		}
+		if ob.SharedInt {
+			c.notDecided(rule, fmt.Sprintf("%s:%s@%s", fname, ob.Kind, c.lineKey(ob.In)), posOf(ob.In), "the index (or its loop bound) is an integer variable shared between a closure and the enclosing function (a length cached outside the closure); the bounds engine reasons within one function only")
+			continue
+		}
+		excepted := false
+		for _, fld := range ob.Fields {
+			if why, ok := exceptions[exKey+":"+fld]; ok && !excepted {
+				c.exception(rule, key, posOf(ob.In), why)
+				excepted = true
+			}
+		}
+		if excepted {
+			continue
+		}
 		c.violate(rule, fmt.Sprintf("%s:%s@%s", fname, ob.Kind, c.lineKey(ob.In)), posOf(ob.In), fname, fmt.Sprintf("%s expression `%s` is not proved in bounds:%s an input reaching this site with the missing fact false panics", ob.Kind, ob.Expr, ob.Why))
 	}
 	c.Stats["bounds_obligations"] += n
@@ -1075,4 +1176,87 @@ func init() {
 		}
 		fmt.Printf("obligations %d discharged %d\n", len(obs), ok)
 	}
+}
+
+// sumIndexProof: idx = t + j and the indexed slice was made with length
+// t + q (the same t), with 0 <= j, j+1 <= q and t >= 0 provable.
+func (F *bfn) sumIndexProof(z *zone, idx, X ssa.Value) bool {
+	ib, ok := F.rep(idx).(*ssa.BinOp)
+	if !ok || ib.Op != token.ADD {
+		return false
+	}
+	mk, ok := F.c.resolve(F.rep(X)).(*ssa.MakeSlice)
+	if !ok {
+		return false
+	}
+	lb, ok := F.rep(mk.Len).(*ssa.BinOp)
+	if !ok || lb.Op != token.ADD {
+		return false
+	}
+	same := func(a, b ssa.Value) bool {
+		if F.rep(a) == F.rep(b) {
+			return true
+		}
+		la, lbb := F.linear(a), F.linear(b)
+		return la == lbb
+	}
+	zero := zLin{a: "0"}
+	for _, it := range [][2]ssa.Value{{ib.X, ib.Y}, {ib.Y, ib.X}} {
+		for _, lt := range [][2]ssa.Value{{lb.X, lb.Y}, {lb.Y, lb.X}} {
+			if !same(it[0], lt[0]) {
+				continue
+			}
+			j, q, t := F.linear(it[1]), F.linear(lt[1]), F.linear(it[0])
+			tNonNeg := F.structNonNeg(it[0], 0) || z.proveLE(zero, t)
+			if tNonNeg && z.proveLE(zero, j) && z.proveLE(zLin{a: j.a, k: j.k + 1, neg: j.neg}, q) {
+				return true
+			}
+		}
+	}
+	return false
+}
+
+// usesSharedInt: v (or the loop bound its counter is compared with) is
+// loaded from an integer cell that a closure shares with its parent.
+func (c *Ctx) usesSharedInt(v ssa.Value, at *ssa.BasicBlock, depth int) bool {
+	if depth > 5 || v == nil {
+		return false
+	}
+	isInt := func(t types.Type) bool {
+		b, ok := t.Underlying().(*types.Basic)
+		return ok && b.Info()&types.IsInteger != 0
+	}
+	switch x := v.(type) {
+	case *ssa.UnOp:
+		if x.Op != token.MUL || !isInt(x.Type()) {
+			return false
+		}
+		if _, ok := x.X.(*ssa.FreeVar); ok {
+			return true
+		}
+		if al, ok := x.X.(*ssa.Alloc); ok {
+			for _, r := range *al.Referrers() {
+				if _, ok := r.(*ssa.MakeClosure); ok {
+					return true
+				}
+			}
+		}
+	case *ssa.BinOp:
+		return c.usesSharedInt(x.X, at, depth+1) || c.usesSharedInt(x.Y, at, depth+1)
+	case *ssa.Convert:
+		return c.usesSharedInt(x.X, at, depth+1)
+	case *ssa.Phi:
+		// a loop counter: look at what it is compared with in the loop head
+		if iff, ok := x.Block().Instrs[len(x.Block().Instrs)-1].(*ssa.If); ok {
+			if cmp, ok := iff.Cond.(*ssa.BinOp); ok {
+				if cmp.X == ssa.Value(x) {
+					return c.usesSharedInt(cmp.Y, at, depth+1)
+				}
+				if bo, ok := cmp.X.(*ssa.BinOp); ok && bo.X == ssa.Value(x) {
+					return c.usesSharedInt(cmp.Y, at, depth+1)
+				}
+			}
+		}
+	}
+	return false
 }
